@@ -132,7 +132,7 @@ def rand_text(r, n, alphabet):
     return ''.join(r.choice(alphabet) for _ in range(n))
 
 
-def text_pool(r, x, thorough):
+def text_pool(r, x, thorough, pgn=None):
     cap = (x['arr'] - 1) if x.get('arr') else 400
     fl = [f for f in (x.get('fields') or []) if 'form' in f]
     ln = fl[0]['len'] if fl else 10
@@ -148,7 +148,21 @@ def text_pool(r, x, thorough):
     out.append(rand_text(r, min(cap, max(1, ln // 2)), alpha) + ' ')
     for _ in range(4 if not thorough else 40):
         out.append(rand_text(r, r.randint(0, min(cap, ln + 3)), alpha))
-    return [t.encode('latin1') for t in out]
+    out = [t.encode('latin1') for t in out]
+    if form == 'WVarStr' and x.get('arr') and pgn in UNICODE_VARSTR:
+        # text outside ASCII (carried as UCS-2): UTF-8 forms that end exactly at / just below the capacity of the application's buffer
+        # with a 2- or 3-byte character, and mixtures
+        for L in sorted({cap, cap - 1, cap - 2, cap // 2, 5}):
+            for last in ('\u00e4', '\u6c34'):
+                n = L - len(last.encode())
+                if n >= 0:
+                    out.append((rand_text(r, n, 'ABCDEFGHIJKLMNOPQRSTUVWXYZ') + last).encode())
+        for _ in range(3 if not thorough else 30):
+            t = ''
+            while len(t.encode()) < cap - 3 and r.random() < 0.9:
+                t += r.choice(['a', 'B', '7', ' ', '\u00f6', '\u00c5', '\u6d77', '\u20ac'])
+            out.append(t.encode())
+    return out
 
 
 def list_pool(r, x, thorough):
@@ -180,7 +194,7 @@ def pools_for(r, f, thorough):
         elif k == 'double':
             P.append(dbl_pool(r, x, thorough))
         elif k == 'text':
-            P.append(text_pool(r, x, thorough))
+            P.append(text_pool(r, x, thorough, f.get('pgn')))
         else:
             P.append(list_pool(r, x, thorough))
     return P
@@ -334,12 +348,31 @@ def field_name(s, a):
     return re.sub(r'^N2kData\.', '', s['ins'][a]['name'])
 
 
-def text_expect(x, t, bufsize):
+# variable-length text of these PGNs may be carried as UCS-2: maximum counted in characters / in bytes of the field (N2kMessages.h, NMEA2000.h)
+UNICODE_VARSTR = {130323: 'chars', 129285: 'chars', 126998: 'bytes'}
+
+
+def text_expect(x, t, bufsize, pgn=None):
     """what a parser must return for text argument t of a setter, or None when the property says nothing (characters the field cannot carry)"""
     fl = [f for f in (x.get('fields') or []) if 'form' in f]
     if len(fl) != 1:
         return None
     form, ln = fl[0]['form'], fl[0]['len']
+    if form == 'WVarStr' and any(c >= 0x80 for c in t) and not any(c < 0x20 or c == 0x7f for c in t):
+        mode = UNICODE_VARSTR.get(int(pgn)) if pgn is not None and str(pgn).isdigit() else None
+        try:
+            chars = t.decode('utf-8')
+        except UnicodeDecodeError:
+            return None
+        if mode is None or any(ord(c) > 0xffff or 0xd800 <= ord(c) < 0xe000 for c in chars) or len(chars) > 40:
+            return None               # invalid / astral text and payload overflow belong to C16
+        chars = chars[:(ln if mode == 'chars' else ln // 2)]
+        if bufsize is not None:
+            if bufsize == 0:
+                return None
+            while len(chars.encode()) > bufsize - 1:       # whole characters only
+                chars = chars[:-1]
+        return chars.encode()
     if any(c < 0x20 or c > 0x7e for c in t) or 0x40 in t:
         return None          # '@' is the AIS "no character" code: what a parser does with it belongs to C16
     if form == 'WAISStr':
@@ -441,7 +474,7 @@ def oracle(case, res):
                     bs = pargs[sz['arg']]
                 elif sz and 'const' in sz:
                     bs = sz['const']
-                e = text_expect(x, sargs[a], bs)
+                e = text_expect(x, sargs[a], bs, pgn)
                 if e is None:
                     continue
                 INFO['checked_text'] += 1
@@ -487,8 +520,14 @@ def known(case, what):
 UNTR = {f['name'] for f in META['functions'] if not f['translated']}
 
 
-def canon(r):
-    """implementation line -> the model's line: functions outside the IR have no model (their results only go to the oracle)"""
+NONASCII_TEXT = re.compile(r' t(?:[0-7][0-9a-f])*[89a-f][0-9a-f]')
+
+
+def canon(r, case=''):
+    """implementation line -> the model's line: functions outside the IR have no model (their results only go to the oracle); the IR
+    models text fields for ASCII arguments only (UCS-2 carriage is the C16 model), cases with other text are judged by the oracle alone"""
+    if NONASCII_TEXT.search(case):
+        return 'nonascii'
     if r.startswith('crash'):
         return 'oob'
     m = re.match(r'k([^ ,]+)(?:,(\S+))? ', r)
@@ -498,7 +537,7 @@ def canon(r):
 
 
 def nontrivial(case, mres):
-    return not mres.startswith(('untranslated', 'badcase', 'nofn'))
+    return not mres.startswith(('untranslated', 'badcase', 'nofn', 'nonascii'))
 
 
 def prepare_harness():
